@@ -77,8 +77,11 @@ func (d *deduplicator) notifyDKGResultSubmitted(
 ) bool {
 	d.dkgResultHashCache.Sweep()
 
-	cacheKey := newDKGResultSeed.Text(16) +
-		hex.EncodeToString(newDKGResultHash[:]) +
+	// The key components are separated to make sure two different events
+	// can never produce the same key. Without separators, the variable-length
+	// seed and block number could borrow digits from the result hash.
+	cacheKey := newDKGResultSeed.Text(16) + "-" +
+		hex.EncodeToString(newDKGResultHash[:]) + "-" +
 		strconv.Itoa(int(newDKGResultBlock))
 
 	// Add checks the presence of the key and adds it in one atomic step so
